@@ -4,6 +4,7 @@ import MosnVerif.Drive.C12
 import MosnVerif.Model.ConfigCodec
 import MosnVerif.Model.ConfigDir
 import MosnVerif.Model.ConfigPairs2
+import MosnVerif.Model.ConfigCb
 import MosnVerif.Drive.C19Order
 /-!
 Driver of C19.  `<esc>` = every byte outside [A-Za-z0-9_.-] as %XX; JSON is compared key-sorted and compact.
@@ -20,15 +21,19 @@ Driver of C19.  `<esc>` = every byte outside [A-Za-z0-9_.-] as %XX; JSON is comp
 `sample <esc path> => unloadable:<why> | ok:<h1>:<h2>:lost<n>`  hashes of the key-sorted, name-sorted first and second dump, and
                                                                  the number of scalars of the input the first dump no longer has
 `gen <n> => unloadable:<why> | ok:<h1>:<h2>:lost<n>`            the same for a generated configuration.
-`dynpair cl|vh init=<hex file names> items=<hex name>.<id>,… => ok:<hex file names after the dump, sorted>:<items read back, sorted> | fail:<stage>`
+`cbeff <esc circuit_breakers wire> => ok:<entries>/<connections,pending,requests,retries>:<the same after dump and reload> | err`
+     a cluster document with these circuit_breakers decoded, built with cluster.NewCluster (limits of its resource
+     manager), marshalled, decoded and built again; predicate: both halves are equal
+`dynpair cl|vh init=<hex file names> items=<hex name>.<id>,… n=<dumps> => ok:<hex file names after the dump, sorted>:<items read back, sorted> | fail:<stage>`
      `ClusterManagerConfig` / `RouterConfiguration` in directory mode, items in this order (clock stamps shown as T<k>);
      model: `marshalDynamic` / `unmarshalDynamic` with the regenerated file-name operations.
-`dyn|dynnul <mode> cl=<items> vh=<items> => ok:<cl0>/<vh0>:<cl1>/<vh1>:<h1>:<h2> | fail:<stage>`
+`dyn|dynnul <mode> cl=<items> vh=<items> n=<dumps before the reload> => ok:<cl0>/<vh0>:<cl1>/<vh1>:<h1>[,<h1'>…]:<h2> | fail:<stage>`
      whole path (load, dump rewriting the directories, reload, second dump): the items of the effective configuration after
      the first load and after the reload, hashes of dump + directory documents after the first and second dump.
 Property predicate (implementation tokens only): `j1 = j2` resp. `h1 = h2 ∧ n = 0` — dump ∘ load is stable after the
 first pass and drops nothing; directory mode: the items read back are exactly the items dumped (`dynpair`: and one
-`.json` file per item is left), `dyn`: before and after the reload, and `h1 = h2`.
+`.json` file per item is left), `dyn`: before and after the reload, and every dump — the `n` ones before the reload and the one after — leaves the same
+documents (`h1 = h1' = … = h2`).
 -/
 namespace MosnVerif.Drive.C19
 open MosnVerif.Drive MosnVerif.Model MosnVerif.Model.ConfigCodec MosnVerif.Model.GoDuration
@@ -109,12 +114,13 @@ def clockOf (its : List (List UInt8 × String)) (i : Nat) : List UInt8 :=
   84 :: ConfigDir.dec ((its.take i).filter (fun it => it.1.isEmpty)).length
 
 /-- model of dump + reload of one directory: the files left (sorted) and the items read back (sorted) -/
-def dirCycle (ops : List MosnVerif.Model.DirTypes.NameOp) (init : List (List UInt8)) (its : List (List UInt8 × String)) :
-    Option (List String × List (List UInt8 × String)) :=
+def dirCycle (ops : List MosnVerif.Model.DirTypes.NameOp) (init : List (List UInt8)) (its : List (List UInt8 × String))
+    (nd : Nat := 1) : Option (List String × List (List UInt8 × String)) :=
   let enc : Nat → Json := fun i => .num (toString i)
   let dcd : Json → Option Nat := fun j => match j with | .num l => l.toNat? | _ => none
   let idx := List.range its.length
-  match ConfigDir.marshalDynamic ops enc (fun i => (its.getD i ([], "")).1) (clockOf its) (init.map (fun n => (n, ConfigDir.Body.empty))) idx with
+  match ConfigDir.dumps ops enc (fun i => (its.getD i ([], "")).1) idx (List.replicate nd (clockOf its))
+      (init.map (fun n => (n, ConfigDir.Body.empty))) with
   | none => none
   | some d =>
     match ConfigDir.unmarshalDynamic dcd MosnVerif.Gen.ConfigDir.readExt d with
@@ -186,6 +192,24 @@ def run (caseToks impl : List String) : String :=
     match shapeOf "Thresholds", getJson w, implPair impl with
     | some th, some w, some im => verdict (cycle2 (cbU th) (cbM th) w) im
     | _, _, _ => "E E bad-case"
+  -- effective circuit-breaker thresholds before the dump and after the reload (Model/ConfigCb.lean)
+  | ["cbeff", w] =>
+    match shapeOf "Thresholds", getJson w, impl with
+    | some th, some w, [t] =>
+      let tok (x : CVal) : String :=
+        s!"{(ConfigCb.entries x).length}/{",".intercalate ((ConfigCb.effective x).map toString)}"
+      let model := (match cbU th w with
+        | none => "err"
+        | some x => (match cbU th (cbM th x) with
+          | some y => s!"ok:{tok x}:{tok y}"
+          | none => s!"ok:{tok x}:reload-fails"))
+      -- predicate: the cluster built from the reloaded dump has the limits (and the entries) of the running one
+      let spec := (match t.splitOn ":" with
+        | ["err"] => true
+        | ["ok", a, b] => a == b
+        | _ => false)
+      s!"{if model == t then "A" else "D"} {if spec then "S" else "V"} {model}"
+    | _, _, _ => "E E bad-case"
   | ["pair", "ln", w, oracle] =>
     match embFields "ListenerConfig", getJson w, implPair impl, parseOracle oracle with
     | some fs, some w, some im, some tbl =>
@@ -212,11 +236,11 @@ def run (caseToks impl : List String) : String :=
         let spec := (match im with | none => true | some f => (parseDur f).map fmtDur == some f)
         s!"{if model == im then "A" else "D"} {if spec then "S" else "V"} {(model.getD "err").replace " " "_"}"
     | _, _ => "E E bad-case"
-  | ["dynpair", what, initTok, itemsT] =>
+  | ["dynpair", what, initTok, itemsT, ndTok] =>
     let ops := if what == "cl" then MosnVerif.Gen.ConfigDir.clusterNameOps else MosnVerif.Gen.ConfigDir.vhostNameOps
-    match (if (initTok.drop 5).toString == "" then some [] else ((initTok.drop 5).toString.splitOn ",").mapM unhex), parseItems (itemsT.drop 6).toString, impl with
-    | some init, some its, [t] =>
-      let model := (match dirCycle ops init its with
+    match (if (initTok.drop 5).toString == "" then some [] else ((initTok.drop 5).toString.splitOn ",").mapM unhex), parseItems (itemsT.drop 6).toString, impl, (ndTok.drop 2).toString.toNat? with
+    | some init, some its, [t], some nd =>
+      let model := (match dirCycle ops init its nd with
         | some (files, back) => s!"ok:{",".intercalate files}:{itemsTok back}"
         | none => "fail")
       let want := itemsTok its
@@ -227,26 +251,27 @@ def run (caseToks impl : List String) : String :=
         | _ => false)
       let agree := model == t || (model == "fail" && t.startsWith "fail:")
       s!"{if agree then "A" else "D"} {if spec then "S" else "V"} {(model.take 200).toString}"
-    | _, _, _ => "E E bad-case"
-  | [kind, mode, clTok, vhTok] =>
+    | _, _, _, _ => "E E bad-case"
+  | [kind, mode, clTok, vhTok, ndTok] =>
     if kind != "dyn" && kind != "dynnul" then "E E unknown-kind" else
-    match parseItems (clTok.drop 3).toString, parseItems (vhTok.drop 3).toString, impl with
-    | some cl, some vh, [t] =>
+    match parseItems (clTok.drop 3).toString, parseItems (vhTok.drop 3).toString, impl, (ndTok.drop 2).toString.toNat? with
+    | some cl, some vh, [t], some nd =>
       let dynCl := (mode.splitOn "cl").length > 1
       let dynVh := (mode.splitOn "rt").length > 1
-      let mcl := if dynCl then (dirCycle MosnVerif.Gen.ConfigDir.clusterNameOps [] cl).map (·.2) else some cl
-      let mvh := if dynVh then (dirCycle MosnVerif.Gen.ConfigDir.vhostNameOps [] vh).map (·.2) else some vh
+      let mcl := if dynCl then (dirCycle MosnVerif.Gen.ConfigDir.clusterNameOps [] cl nd).map (·.2) else some cl
+      let mvh := if dynVh then (dirCycle MosnVerif.Gen.ConfigDir.vhostNameOps [] vh nd).map (·.2) else some vh
       let model := (match mcl, mvh with
         | some a, some b => s!"{itemsTok a}/{itemsTok b}"
         | _, _ => "fail")
       let want := s!"{itemsTok cl}/{itemsTok vh}"
       match t.splitOn ":" with
       | ["ok", a0, a1, h1, h2] =>
-        let spec := a0 == want && a1 == want && h1 == h2
+        -- h1: the hashes of dump + directory documents after each of the `nd` dumps before the reload
+        let spec := a0 == want && a1 == want && (h1.splitOn ",").all (· == h2) && (h1.splitOn ",").length == nd
         s!"{if model == a1 then "A" else "D"} {if spec then "S" else "V"} {(model.take 200).toString}"
       | "fail" :: _ => s!"{if model == "fail" then "A" else "D"} V {(model.take 200).toString}"
       | _ => "E E bad-impl"
-    | _, _, _ => "E E bad-case"
+    | _, _, _, _ => "E E bad-case"
   | "sample" :: _ | "gen" :: _ =>
     match impl with
     | [t] =>
